@@ -69,7 +69,7 @@ CLAIMED = {
          "percent-decoding, URI parsing (state functions in sequence), query-string iteration, IPv6 literal check: no out-of-bounds access, loops terminate within the bound (unwinding "
          "assertions are part of the property here), failure is reported through the documented channel with a registered error code, and every "
          "returned view lies inside the input.",
-    note="NOT decided (stated in evidence.outside_claim): JSON/cJSON, the CBOR decoder, the URI table dispatcher, the XML body/skip path "
+    note="NOT decided (stated in evidence.outside_claim): JSON/cJSON, the CBOR decoder beyond the first item of the input (the first item on 10/12 arbitrary bytes IS decided: h_cbor_decode_first), the URI table dispatcher, the XML body/skip path "
          "(s_advance_to_closing_tag), date-time, UUID and IPv4 (sscanf) -- their encodings exceed 12 GB / 240 s even at 2 input bytes or rest on libc. "
          "A genuine XML defect (searching '>' before '<') was found by these harnesses and repaired by a fix: commit.",
     technique="CBMC bounded symbolic execution of the real parsers over fully symbolic input buffers of fixed small length"),
